@@ -18,6 +18,21 @@ CLAIMED = {
    note="Trusted: Go type checker, go/ssa, tables in checker/c18.go; interceptor wiring and token arithmetic are not analysed.",
    technique="constant-table evaluation, call-graph effect classification, guard dominance and must-pass-through on the SSA CFG",
    ref="DESIGN.md §3 C18"),
+ "C01": dict(
+   text="Static decision of structural necessary conditions of proof soundness: hash coverage of every header/entry field; in the store verifiers every parameter is used and every accepting path crosses each required comparison and each sub-verifier's verified edge, with sub-verifiers applied to header-derived arguments; the client advances the trusted state only after a dual proof anchored in the trusted hash, signature check and a content-binding site; proto conversions carry every field.",
+   note="Trusted: Go type checker, go/ssa, sha256, tables in checker/c01.go. Not covered: proof generation (completeness), arithmetic of the Merkle verifiers.",
+   technique="guard-dominance / must-cross-edge queries on the SSA CFG, argument provenance, struct-field coverage",
+   ref="DESIGN.md §3 C01"),
+ "C06": dict(
+   text="Static decision of the waiting discipline behind KV linearizability: every direct index read in pkg/database is preceded by an indexing wait targeting the committed frontier / SinceTx unless across NoWait or AtTx edges; async commit only under NoWait; commit paths wait for commit and then indexing of their own tx; preconditions evaluated under the store mutex after the index caught up.",
+   note="Trusted: Go type checker, go/ssa, tables in checker/c06.go. Not covered: linearizability of histories.",
+   technique="must-pass-through and guard-dominance on the SSA CFG, argument provenance, lockset",
+   ref="DESIGN.md §3 C06"),
+ "C07": dict(
+   text="Static decision of the structural clauses behind faithful replication: call-graph-derived write-class database methods sit behind an isReplica() gate of the right polarity; every field of the replicated header is compared or copied in precommit and the Eh check is skippable only via skipIntegrityCheck; commit allowance written only by its two setters, raised only with enough acks and after the replica's committed/precommitted Alh were validated, accepted by a replica only after an Alh comparison; replicator-matched error texts and metadata keys are produced by the peer.",
+   note="Trusted: Go type checker, go/ssa, tables in checker/c07.go. Not covered: equality of histories over delivery schedules.",
+   technique="call-graph effect classification, guard dominance on the SSA CFG, struct-field coverage, constant-string agreement",
+   ref="DESIGN.md §3 C07"),
  "C10": dict(
    text="Static decision of copy-on-write discipline of B-tree nodes (every write to a logical node field is on a fresh node, on the receiver of an in-place mutator whose call sites are all on private nodes, under a mutated() guard, or under commitLog in writeTo), lock pairing and lockset of tree/snapshot state, snapshots pinned to flushed roots, discard bounded by open snapshots, flush ordering. Necessary conditions of snapshot immutability, not equivalence with the abstract map.",
    note="Trusted: Go type checker, go/ssa, COW field table and mutator table in checker/c10.go.",
